@@ -242,15 +242,32 @@ def expected_for_case(case):
             keep.append(n)
     pre = g["prefix"].strip(b"/")
     nn = []
+    # names of one file of which the one that stands for the inode in the model was filtered out: the names that are left still
+    # are one file; the model lets the first of them stand for the inode
+    kept_paths = set(k["path"] for k in keep)
+    reroot = {}
     for n in keep:
-        m = dict(n)
-        m["path"] = (pre + b"/" + n["path"]) if pre else n["path"]
         if n["type"] == "hlink":
             tn = treemodel.resolve_hlink(nodes, n["path"])
-            if tn["path"] not in [k["path"] for k in keep]:
-                # the first name the scan meets becomes the real inode - order dependent; avoided by the generator
-                raise treemodel.Unrepresentable("glob filtered a link target")
-            m["target"] = (pre + b"/" + n["target"]) if pre else n["target"]
+            if tn["path"] not in kept_paths:
+                reroot.setdefault(tn["path"], []).append(n["path"])
+    newreal = {real: sorted(names)[0] for real, names in reroot.items()}
+    for n in keep:
+        m = dict(n)
+        if n["type"] == "hlink":
+            tn = treemodel.resolve_hlink(nodes, n["path"])
+            if tn["path"] in newreal:
+                if newreal[tn["path"]] == n["path"]:
+                    m = dict(tn)
+                    m["path"] = n["path"]
+                    n = m
+                else:
+                    m["target"] = newreal[tn["path"]]
+            else:
+                m["target"] = tn["path"]
+        m["path"] = (pre + b"/" + m["path"]) if pre else m["path"]
+        if m["type"] == "hlink":
+            m["target"] = (pre + b"/" + m["target"]) if pre else m["target"]
         if g["mode"] is not None:
             m["mode"] = g["mode"]
         if g["uid"] is not None:
